@@ -41,7 +41,12 @@ type Case struct {
 	Same    bool   `json:"same"`     // Reparse == Tree
 	Err     string `json:"err,omitempty"`
 	Nodes   int    `json:"nodes"`
-	Canon   bool   `json:"canon"`    // Src is the printer's own default output (canonical positions)
+	Canon   bool   `json:"canon"`    // Src is in the canonical multi-line layout
+	PTree   string `json:"ptree,omitempty"`  // Coq term of type MiniPos.pfile: the tree with the lines of Src
+	PTree2  string `json:"ptree2,omitempty"` // the same for the re-parse of Out
+	Ind     int    `json:"ind"`
+	Bnl     bool   `json:"bnl"`
+	Idem    bool   `json:"idem"` // real Print(Parse(Out)) == Out
 }
 
 // ---------------------------------------------------------------- export
@@ -242,6 +247,84 @@ func (e *exporter) cmd(c syntax.Command) string {
 	return "(Call nil)"
 }
 
+// ---------------------------------------------------------------- export with lines (MiniPos.pfile)
+
+func (e *exporter) pstmts(ss []*syntax.Stmt) string {
+	var sb strings.Builder
+	for _, s := range ss {
+		fmt.Fprintf(&sb, "(PCons %s ", e.pstmt(s))
+	}
+	sb.WriteString("PNil")
+	sb.WriteString(strings.Repeat(")", len(ss)))
+	return sb.String()
+}
+
+func (e *exporter) pstmt(s *syntax.Stmt) string {
+	if s.Cmd == nil {
+		e.bad("stmt")
+		return "PNil"
+	}
+	return fmt.Sprintf("(PStmt %d%%nat %s %s %s %d%%nat)", s.Pos().Line(), coqBool(s.Negated), e.pcmd(s.Cmd), coqBool(s.Background), s.End().Line())
+}
+
+func (e *exporter) pels(ic *syntax.IfClause, fi uint) string {
+	if ic == nil {
+		return fmt.Sprintf("(PNoElse %d%%nat)", fi)
+	}
+	if ic.ThenPos.IsValid() {
+		return fmt.Sprintf("(PElif %d%%nat %s %d%%nat %s %s)", ic.Position.Line(), e.pstmts(ic.Cond), ic.ThenPos.Line(), e.pstmts(ic.Then), e.pels(ic.Else, fi))
+	}
+	return fmt.Sprintf("(PElse %d%%nat %s %d%%nat)", ic.Position.Line(), e.pstmts(ic.Then), fi)
+}
+
+func (e *exporter) pcmd(c syntax.Command) string {
+	switch c := c.(type) {
+	case *syntax.CallExpr:
+		if len(c.Args) == 0 {
+			e.bad("assign")
+			return "(PCall 0%nat nil)"
+		}
+		l := c.Args[0].Pos().Line()
+		var sb strings.Builder
+		fmt.Fprintf(&sb, "(PCall %d%%nat (", l)
+		for _, w := range c.Args {
+			if w.Pos().Line() != l || w.End().Line() != l {
+				e.bad("multi-line call")
+			}
+			sb.WriteString(e.word(w))
+			sb.WriteString(" :: ")
+		}
+		sb.WriteString("nil))")
+		return sb.String()
+	case *syntax.Block:
+		return fmt.Sprintf("(PBlock %d%%nat %s %d%%nat)", c.Lbrace.Line(), e.pstmts(c.Stmts), c.Rbrace.Line())
+	case *syntax.Subshell:
+		return fmt.Sprintf("(PSubshell %d%%nat %s %d%%nat)", c.Lparen.Line(), e.pstmts(c.Stmts), c.Rparen.Line())
+	case *syntax.IfClause:
+		return fmt.Sprintf("(PIf %d%%nat %s %d%%nat %s %s)", c.Position.Line(), e.pstmts(c.Cond), c.ThenPos.Line(), e.pstmts(c.Then), e.pels(c.Else, c.FiPos.Line()))
+	case *syntax.WhileClause:
+		return fmt.Sprintf("(PWhile %s %d%%nat %s %d%%nat %s %d%%nat)", coqBool(c.Until), c.WhilePos.Line(), e.pstmts(c.Cond), c.DoPos.Line(), e.pstmts(c.Do), c.DonePos.Line())
+	case *syntax.BinaryCmd:
+		op := "Pipe"
+		switch c.Op {
+		case syntax.AndStmt:
+			op = "AndStmt"
+		case syntax.OrStmt:
+			op = "OrStmt"
+		}
+		return fmt.Sprintf("(PBinary %s %s %d%%nat %s)", op, e.pstmt(c.X), c.OpPos.Line(), e.pstmt(c.Y))
+	}
+	e.bad(fmt.Sprintf("cmd %T", c))
+	return "(PCall 0%nat nil)"
+}
+
+// pexport: only after export(f) accepted the tree
+func pexport(f *syntax.File) (string, bool, string) {
+	e := &exporter{ok: true}
+	t := e.pstmts(f.Stmts)
+	return t, e.ok, e.why
+}
+
 func export(f *syntax.File) (string, int, bool, string) {
 	e := &exporter{ok: true}
 	t := e.stmts(f.Stmts, f.Last)
@@ -256,6 +339,8 @@ var argPool = []string{"a", "b", "-n", "x=1", "'a b'", "\"$x y\"", "$1", "${foo}
 type gen struct {
 	r      *rand.Rand
 	layout bool // random layout (newlines); false = one line
+	canon  bool // canonical multi-line layout: the layout of the default printer's own output
+	lastN  int  // number of statements of the list generated last
 }
 
 func (g *gen) wordText(first bool) string {
@@ -281,6 +366,9 @@ func (g *gen) wordText(first bool) string {
 }
 
 func (g *gen) sp() string {
+	if g.canon {
+		return " "
+	}
 	if g.layout && g.r.IntN(8) == 0 {
 		return "  "
 	}
@@ -289,6 +377,9 @@ func (g *gen) sp() string {
 
 // nl: a place where a newline may stand for a blank
 func (g *gen) nl() string {
+	if g.canon {
+		return " "
+	}
 	if g.layout && g.r.IntN(3) == 0 {
 		if g.r.IntN(4) == 0 {
 			return "\n\n"
@@ -334,7 +425,9 @@ func (g *gen) list(depth int, max int) (string, bool) {
 	bg := false
 	for i := 0; i < n; i++ {
 		if i > 0 {
-			if bg {
+			if g.canon {
+				sb.WriteString("\n")
+			} else if bg {
 				sb.WriteString(g.nl())
 			} else if g.layout && g.r.IntN(2) == 0 {
 				sb.WriteString("\n")
@@ -348,7 +441,49 @@ func (g *gen) list(depth int, max int) (string, bool) {
 			sb.WriteString(g.sp() + "&")
 		}
 	}
+	g.lastN = n
 	return sb.String(), bg
+}
+
+// canonical layout pieces
+func (g *gen) ccond(depth int) string {
+	c, bg := g.body(depth)
+	if g.lastN == 1 {
+		if bg {
+			return " " + c + " "
+		}
+		return " " + c + "; "
+	}
+	return "\n" + c + "\n"
+}
+
+func (g *gen) cbody(depth int) string {
+	b, _ := g.body(depth)
+	return "\n" + b + "\n"
+}
+
+func (g *gen) canonCmd(depth int, k int) string {
+	switch {
+	case k < 5:
+		return "{" + g.cbody(depth) + "}"
+	case k < 7:
+		return "(" + g.cbody(depth) + ")"
+	case k < 9:
+		s := "if" + g.ccond(depth) + "then" + g.cbody(depth)
+		for g.r.IntN(3) == 0 {
+			s += "elif" + g.ccond(depth) + "then" + g.cbody(depth)
+		}
+		if g.r.IntN(3) == 0 {
+			s += "else" + g.cbody(depth)
+		}
+		return s + "fi"
+	default:
+		kw := "while"
+		if g.r.IntN(2) == 0 {
+			kw = "until"
+		}
+		return kw + g.ccond(depth) + "do" + g.cbody(depth) + "done"
+	}
 }
 
 func (g *gen) andor(depth int) string {
@@ -381,6 +516,9 @@ func (g *gen) cmd(depth int) string {
 	k := g.r.IntN(10)
 	if depth <= 0 || k < 4 {
 		return g.call()
+	}
+	if g.canon {
+		return g.canonCmd(depth, k)
 	}
 	switch {
 	case k < 5:
@@ -488,6 +626,68 @@ func runCase(id int, src string, stats map[string]int) {
 	hx.Emit(c)
 }
 
+func defaultOptsFor(i int) (string, int, bool, []syntax.PrinterOption) {
+	switch i % 4 {
+	case 1:
+		return "i4", 4, false, []syntax.PrinterOption{syntax.Indent(4)}
+	case 2:
+		return "bn", 0, true, []syntax.PrinterOption{syntax.BinaryNextLine(true)}
+	case 3:
+		return "i2,bn", 2, true, []syntax.PrinterOption{syntax.Indent(2), syntax.BinaryNextLine(true)}
+	}
+	return "default", 0, false, nil
+}
+
+// runDefault: the default (multi-line) printer on the tree WITH the lines of src.
+func runDefault(id int, src string, canon bool, stats map[string]int) {
+	f, err := hxfmt.Parse(src, syntax.LangBash, false)
+	if err != nil {
+		stats["src_parse_error"]++
+		return
+	}
+	tree, nodes, ok, why := export(f)
+	if !ok {
+		stats["outside:"+why]++
+		return
+	}
+	ptree, ok, why := pexport(f)
+	if !ok {
+		stats["outside:"+why]++
+		return
+	}
+	name, ind, bnl, po := defaultOptsFor(id)
+	c := Case{ID: id, Src: hx.Hex(src), Tree: tree, PTree: ptree, Opts: name, Mode: "default", Nodes: nodes, Canon: canon, Ind: ind, Bnl: bnl}
+	pr := syntax.NewPrinter(po...)
+	out, err := hxfmt.Print(pr, f)
+	if err != nil {
+		c.Err = "print: " + err.Error()
+		hx.Emit(c)
+		return
+	}
+	c.Out = hx.Hex(out)
+	f2, err := hxfmt.Parse(out, syntax.LangBash, false)
+	if err != nil {
+		c.Err = "reparse: " + err.Error()
+		hx.Emit(c)
+		return
+	}
+	rp, _, ok2, why2 := export(f2)
+	if !ok2 {
+		c.Err = "reparse outside the fragment: " + why2
+		hx.Emit(c)
+		return
+	}
+	c.Reparse = rp
+	c.Same = rp == tree
+	if pt2, ok3, _ := pexport(f2); ok3 {
+		c.PTree2 = pt2
+	}
+	out2, err := hxfmt.Print(pr, f2)
+	c.Idem = err == nil && out2 == out
+	stats["cases_default"]++
+	hx.Emit(c)
+}
+
 func main() {
 	o := hx.ParseArgs()
 	defer hx.Flush()
@@ -520,6 +720,28 @@ func main() {
 			src += "\n"
 		}
 		runCase(id, src, stats)
+		id++
+	}
+	// default (multi-line) printer: pinned programs as written, generated programs in random and in canonical layout
+	for _, p := range pinned {
+		runDefault(id, p, false, stats)
+		id++
+	}
+	gd := &gen{r: hx.Rand(o.Seed, 302)}
+	for i := 0; i < o.N; i++ {
+		gd.canon = i%2 == 0
+		gd.layout = !gd.canon
+		src, _ := gd.list(1+gd.r.IntN(3), 3)
+		if o.Tier == "quick" {
+			for try := 0; len(src) > 160 && try < 50; try++ {
+				src, _ = gd.list(1+gd.r.IntN(2), 2)
+			}
+			if len(src) > 160 {
+				continue
+			}
+		}
+		src += "\n"
+		runDefault(id, src, gd.canon, stats)
 		id++
 	}
 	hx.Emit(map[string]any{"summary": stats})
